@@ -9,7 +9,7 @@
    One JSON line per case with the specification's answer / the requirement in data form.                     *)
 EXTENDS ContainerPaths, TLC, Json
 
-CONSTANTS Mode, EffSrcLocs
+CONSTANTS Mode, EffSrcLocs, ExtraItems
 VARIABLE x
 
 (* ---- _parse_bind ---------------------------------------------------------------------------------------- *)
@@ -23,7 +23,7 @@ Flag(k) == [k |-> k, v |-> "", kv |-> FALSE]
 TypeItems == {KV("type", t) : t \in {"bind", "volume", "tmpfs"}}
 SrcItems == {KV("src", "/h/a"), KV("source", "/h/b")}
 DstItems == {KV("dst", "/c/x"), KV("target", "/c/y"), KV("destination", "/c/z")}
-Extras == {Flag("readonly"), KV("bind-propagation", "rprivate")}
+Extras == {e \in {Flag("readonly"), KV("bind-propagation", "rprivate")} : e.k \in ExtraItems}
 Pick(S) == {{}} \cup {{i} : i \in S}
 ItemSets == {a \cup b \cup c \cup e : a \in Pick(TypeItems), b \in Pick(SrcItems), c \in Pick(DstItems), e \in SUBSET Extras}
 RECURSIVE Orders(_)
